@@ -26,6 +26,7 @@ global size_of usize == 8;
 
 //@import units/inc/map_core.inc.rs
 
+//@include units/inc/map_ctor_core.inc.rs
 //@include units/inc/map_ctor.inc.rs
 } // verus!
 fn main() {}
